@@ -24,7 +24,8 @@ def run(m):
     p = subprocess.run([VERIF + '/bin/maddyverif', '-repo', REPO, '-verif', vd, '-property', ID, '-overlay', m['file'] + '=' + m['out']],
                        capture_output=True, text=True, env=env)
     out = p.stdout
-    rules = sorted({l.split(': ', 1)[1].split(' ', 1)[0] for l in out.splitlines() if ': %s.' % ID in l and 'KNOWN-FINDING' not in l})
+    import re
+    rules = sorted({l.split(': ', 1)[1].split(' ', 1)[0] for l in out.splitlines() if re.search(r': C\d\d\.', l) and 'KNOWN-FINDING' not in l})
     if any('.load' in r or r.endswith('.internal') for r in rules) or 'load failed' in out:
         verdict = 'invalid'
     elif p.returncode != 0:
@@ -32,7 +33,7 @@ def run(m):
     else:
         verdict = 'survived'
     shutil.rmtree(vd, ignore_errors=True)
-    m = dict(m); m['verdict'] = verdict; m['rules'] = [r for r in rules if '.floor' not in r or len(rules) == 1]
+    m = dict(m); m['verdict'] = verdict; m['rules'] = [r for r in rules if '.floor' not in r or len(rules) == 1][:12]
     return m
 
 with cf.ThreadPoolExecutor(max_workers=12) as ex:
